@@ -915,6 +915,33 @@ Proof. intros Hg. unfold ffi_single_life. change (v_single_cleans (current dbg))
 
 End EntryPoints.
 
+(* all wrappers / entry points at once *)
+Definition wrappers_stmt : Prop :=
+  forall temps : callee -> N -> list tstep, (forall c k, bal 0 (temps c k) = true) ->
+  forall dbg : bool,
+    (forall q w calls, Forall (good_op 0) calls -> returned (writer_life temps (current dbg) q w calls)) /\
+    (forall q w calls, Forall (good_op 0) calls -> returned (reader_life temps (current dbg) q w calls)) /\
+    (forall params dict calls x, Forall (good_op 0) (params ++ dict ++ calls) ->
+        returned (copy_life temps (current dbg) params dict calls x)) /\
+    (forall q w trivial calls, Forall (good_op 0) calls -> returned (oneshot_life temps (current dbg) q w trivial calls)) /\
+    (forall sh ts, good_threads 0 ts -> returned (multi_life temps (current dbg) sh ts empty_ledger)) /\
+    (forall sh n ts, good_threads 0 ts -> returned (multi_slice_life temps (current dbg) sh n ts)) /\
+    (forall custom state_size h, Forall (good_op 0) h -> returned (ffi_life temps (current dbg) custom state_size h)) /\
+    (forall params call, Forall (good_op 0) (params ++ [call]) -> returned (ffi_single_life temps (current dbg) params call)).
+
+Lemma wrappers_return : wrappers_stmt.
+Proof.
+  intros temps Hb dbg.
+  split; [intros; apply writer_returns; assumption|].
+  split; [intros; apply reader_returns; assumption|].
+  split; [intros; apply copy_returns; assumption|].
+  split; [intros; apply oneshot_returns; assumption|].
+  split; [intros; apply multi_returns; assumption|].
+  split; [intros; apply multi_slice_returns; assumption|].
+  split; [intros; apply ffi_returns; assumption|].
+  intros; apply ffi_single_returns; assumption.
+Qed.
+
 (* ====================================================================== witnesses *)
 
 Definition no_temps : callee -> N -> list tstep := fun _ _ => [].
